@@ -781,8 +781,8 @@ func (r *Run) buildSources() []dials.Source {
 func (r *Run) params() dials.Params[CfgCore] {
 	if r.sc.NoGlobalCB {
 		return dials.Params[CfgCore]{
-			SkipInitialVerification:  r.sc.Skip,
-			DelayInitialVerification: r.sc.Delay,
+			SkipInitialVerification:                     r.sc.Skip,
+			DelayInitialVerification:                    r.sc.Delay,
 			CallGlobalCallbacksAfterVerificationEnabled: r.sc.Suppress,
 		}
 	}
